@@ -149,7 +149,7 @@ fn serve(l: TcpListener, table: Vec<(String, RespModel)>, seg: String, keep_open
             log.lock().unwrap().push(line.clone());
             let target = line.split(' ').nth(1).unwrap_or("/").to_string();
             let path = target.split('?').next().unwrap_or("/").to_string();
-            let resp = table.iter().find(|(p, _)| *p == path).map(|(_, r)| r.clone()).unwrap_or(RespModel { version: "HTTP/1.1".into(), status: 404, headers: vec![("X-Not-In-Table".into(), "1".into())], body: b"nf".to_vec(), framing: "cl".into(), chunks: vec![], hex_upper: false });
+            let resp = table.iter().find(|(p, _)| *p == path).map(|(_, r)| r.clone()).unwrap_or(RespModel { version: "HTTP/1.1".into(), status: 404, headers: vec![("X-Not-In-Table".into(), "1".into())], body: b"nf".to_vec(), framing: "cl".into(), chunks: vec![], hex_upper: false, name_style: 0, sep_style: 0 });
             let wire = resp.render();
             write_all(&mut s, &wire);
             let self_delim = no_body_status(resp.status) || resp.effective_framing() == "cl" || resp.effective_framing() == "chunked";
@@ -366,6 +366,8 @@ impl C07 {
         }
         let result: Arc<Mutex<Option<Result<(u16, Vec<(String, String)>, Vec<u8>, String), String>>>> = Arc::new(Mutex::new(None));
         let logs: Vec<Arc<Mutex<Vec<String>>>> = (0..4).map(|_| Arc::new(Mutex::new(Vec::new()))).collect();
+        let took: Arc<Mutex<u64>> = Arc::new(Mutex::new(0));
+        let took2 = took.clone();
         let (result2, logs2, scn2, first_host) = (result.clone(), logs.clone(), scn.clone(), chain[0].host % 4);
         let outcome = sim::run(scn.sim.to_config(), move || {
             let scn = scn2;
@@ -386,14 +388,22 @@ impl C07 {
                 "DELETE" => client.delete(&url),
                 _ => client.get(&url),
             };
+            let t_call = sim::now_ns();
             let r = match req {
                 Ok(rq) => rq.with_redirects(scn.follow && scn.part == "redirect").send().map(|r| (u16::from(r.status_code), headers_of(&r), r.body.clone(), r.version.clone())).map_err(|e| e.to_string()),
                 Err(e) => Err(format!("url rejected: {}", e)),
             };
             *result2.lock().unwrap() = Some(r);
+            *took2.lock().unwrap() = sim::now_ns() - t_call;
         });
         rr.absorb(&outcome);
         rr.count(if redirect { "c07.redirect_runs" } else { "c07.client_runs" }, 1);
+        // a keep-alive server holds the connection for 30 s after a self-delimiting response:
+        // a client that returns only when the server gives up has waited for the close instead of
+        // using the message's own length
+        if scn.keep_open && *took.lock().unwrap() >= 25_000_000_000 {
+            rr.violate("C07/R3", "client-waited-for-close-of-self-delimited-response", format!("the request took {} virtual ms against a keep-alive server that holds the connection open for 30 s after each self-delimiting response", *took.lock().unwrap() / 1_000_000));
+        }
         let expected = if redirect && scn.follow { chain.last().unwrap().resp.clone() } else { chain[0].resp.clone() };
         let tag = format!("{}:{}", if redirect { "redirect" } else { "client" }, expected.effective_framing());
         rr.count(&format!("c07.framing.{}", expected.effective_framing()), 1);
@@ -504,7 +514,7 @@ impl Prop for C07 {
             }
             let comp = composition(n, k - base);
             let body: Vec<u8> = (0..n).map(|i| b'a' + i as u8).collect();
-            let resp = RespModel { version: "HTTP/1.1".into(), status: 200, headers: vec![("Content-Type".into(), "text/plain".into())], body, framing: "chunked".into(), chunks: comp, hex_upper: idx % 2 == 1 };
+            let resp = RespModel { version: "HTTP/1.1".into(), status: 200, headers: vec![("Content-Type".into(), "text/plain".into())], body, framing: "chunked".into(), chunks: comp, hex_upper: idx % 2 == 1, name_style: 0, sep_style: 0 };
             return serde_json::to_value(Scn { sim, part: "client".into(), resp, cookies: vec![], method: "GET".into(), seg: ["", "onebyte", "random:3"][rng.usize_below(3)].into(), keep_open: rng.chance(1, 2), chain: vec![], follow: false, plan_seed: 0 }).unwrap();
         }
         let r = rng.below(100);
